@@ -481,6 +481,11 @@ class SymExec:
             return [st]
         if isinstance(n, ast.Assign):
             v = self.sub(n.value, st)
+            if isinstance(v, ast.Call) and isinstance(v.func, ast.Attribute) and v.func.attr in ('popleft', 'pop', 'popitem'):
+                # a consuming call yields a fresh value each time: never duplicate it by substitution
+                self.n_eff = getattr(self, 'n_eff', 0)
+                v = _mk_call('__eff__', ast.Constant(value=self.n_eff), v)
+                self.n_eff += 1
             for t in n.targets:
                 self._store(t, None, copy.deepcopy(v), st)
             return [st]
@@ -2353,17 +2358,15 @@ def rule_width_cast(repo, backend):
     for c, f, o in emissions(lk, vis, 'visit_Attribute'):
         if o.kind != 'return' or o.value is None:
             continue
-        is_const = any(p is True and re.search(CONSTV, norm(t)) for t, p in o.conds)
-        if not is_const:
-            continue
-        vecpath = any(p is True and re.search(r'\.Vector\)', norm(t)) for t, p in o.conds) or \
-            any(p is True and re.search(r'isinstance\(node\.Type\.get_object\(\), (int|Bits)\)', norm(t)) for t, p in o.conds)
-        if not vecpath:
-            continue
         stores = [(t, val) for t, op, val, cs in o.stores if op is None and norm(t) == "node.sexpr['s_attr']"]
         exprs = [val for t, val in stores[-1:]] if stores else [o.value]
         for e in exprs:
             for v in to_variants(e, o.conds):
+                is_const = any(p is True and re.search(CONSTV, norm(t)) for t, p in v.conds)
+                vecpath = any(p is True and re.search(r'\.Vector\)', norm(t)) for t, p in v.conds) or \
+                    any(p is True and re.search(r'isinstance\(node\.Type\.get_object\(\), (int|Bits)\)', norm(t)) for t, p in v.conds)
+                if not (is_const and vecpath):
+                    continue
                 n_const += 1
                 w = sized_width(v)
                 cons = f"visit_Attribute (constant) -> {v.skeleton()} {[h.text for h in hole_list(v.parts)]}"
@@ -2446,4 +2449,478 @@ def rule_width_cast(repo, backend):
         r.ok(c.mod, fq(c, f), cons)
     r.evaluations = nev
     r.require_floor(3 + 4 + 1 + 1 + 1)
+    return r
+
+
+# ---------------------------------------------------------------------------
+def _ref_host(W, R, WP, RP):
+    """specification of the hosting component of an adjacency edge (writer u, reader v)"""
+    if W == R:
+        return W
+    if WP == R:
+        return R
+    if W == RP:
+        return W
+    if WP == RP:
+        return WP
+    return 'raise'
+
+
+class _ConnEv(_Ev):
+    pass
+
+
+def rule_conn(repo, backend):
+    r = RuleResult('R-tr-conn', f"[{backend}] every adjacency edge is attributed to exactly one hosting component by the four-case "
+                                f"host relation; connections keep (writer, reader) orientation down to `assign reader = writer`")
+    lk = linker(repo)
+    nev = 0
+    m = repo.mod(G_S1)
+    fn = m.functions.get('gen_connections')
+    if fn is None:
+        raise AnalysisError("anchor vanished: gen_connections")
+    # locate the decision chain: the if/elif whose branches add (u, v) to the result dictionary
+    adds = [n for n in ast.walk(fn) if isinstance(n, ast.Call) and isinstance(n.func, ast.Attribute) and n.func.attr == 'add'
+            and isinstance(n.func.value, ast.Subscript) and len(n.args) == 1 and isinstance(n.args[0], ast.Tuple)]
+    if len(adds) < 4:
+        raise AnalysisError("gen_connections: host decision chain not found")
+    chain = None
+    for n in ast.walk(fn):
+        if isinstance(n, ast.If) and not isinstance(parent(n), ast.If) or \
+                (isinstance(n, ast.If) and n not in getattr(parent(n), 'orelse', [])):
+            inside = [a for a in adds if any(a is x for x in ast.walk(n))]
+            if len(inside) == len(adds):
+                if chain is None or any(n is x for x in ast.walk(chain)):
+                    chain = n
+    if chain is None:
+        raise AnalysisError("gen_connections: host decision chain not found")
+    # names of the four hosts: reaching definitions inside the function
+    defs = {}
+    for n in ast.walk(fn):
+        if isinstance(n, ast.Assign) and len(n.targets) == 1 and isinstance(n.targets[0], ast.Name):
+            defs[n.targets[0].id] = n.value
+    loopvars = [n for n in ast.walk(fn) if isinstance(n, ast.For)]
+    roles = {}
+    for name, val in defs.items():
+        t = norm(val)
+        mm = re.fullmatch(r"(\w+)\.get_host_component\(\)", t)
+        if mm:
+            roles[name] = ('host', mm.group(1))
+    for name, val in defs.items():
+        t = norm(val)
+        mm = re.fullmatch(r"(\w+)\.get_parent_object\(\)", t)
+        if mm and mm.group(1) in roles:
+            roles[name] = ('parent', roles[mm.group(1)][1])
+    # which signal is the writer-side one: the popped / outer element `u`, the adjacency element `v`
+    edge = [norm(a.args[0]) for a in adds]
+    if len(set(edge)) != 1:
+        r.bad(m, 'gen_connections', f"edges {sorted(set(edge))}", "branches record differently oriented edges", chain.lineno)
+    tup = adds[0].args[0]
+    u, v = norm(tup.elts[0]), norm(tup.elts[1])
+    inner_for = [n for n in loopvars if norm(n.target) == v]
+    if not inner_for or u not in norm(inner_for[0].iter):
+        r.bad(m, 'gen_connections', f"edge ({u}, {v})", f"the recorded edge is not (signal reached from the writer, its "
+              f"adjacent signal): assign direction of the emitted connection is reversed", chain.lineno)
+    else:
+        r.ok(m, 'gen_connections', f"edge ({u}, {v}) with {v} in adjacency of {u}")
+    sym = {}
+    for name, (kind, sig_) in roles.items():
+        sym[name] = {('host', u): 'W', ('host', v): 'R', ('parent', u): 'WP', ('parent', v): 'RP'}.get((kind, sig_))
+    if sorted(x for x in sym.values() if x) != ['R', 'RP', 'W', 'WP']:
+        raise AnalysisError(f"gen_connections: cannot identify writer/reader hosts and parents ({roles})")
+    # flatten chain into (test, host-key expression | 'raise')
+    branches = []
+    cur = chain
+    while True:
+        body_adds = [a for a in adds if any(a is x for s_ in cur.body for x in ast.walk(s_))]
+        if len(body_adds) == 1:
+            branches.append((cur.test, norm(body_adds[0].func.value.slice)))
+        elif always_exits(cur.body) and exit_kind(cur.body) == {'raise'}:
+            branches.append((cur.test, 'raise'))
+        else:
+            raise AnalysisError("gen_connections: branch outside the expected shape")
+        if len(cur.orelse) == 1 and isinstance(cur.orelse[0], ast.If):
+            cur = cur.orelse[0]
+            continue
+        if cur.orelse:
+            oa = [a for a in adds if any(a is x for s_ in cur.orelse for x in ast.walk(s_))]
+            if len(oa) == 1:
+                branches.append((None, norm(oa[0].func.value.slice)))
+            elif always_exits(cur.orelse) and exit_kind(cur.orelse) == {'raise'}:
+                branches.append((None, 'raise'))
+            else:
+                raise AnalysisError("gen_connections: else branch outside the expected shape")
+        else:
+            branches.append((None, 'drop'))
+        break
+    mism = None
+    n_cfg = 0
+    for W, R, WP, RP in itertools.product(range(4), repeat=4):
+        # tree consistency: a component is not its own parent; equal components have equal parents
+        if WP == W or RP == R or (W == R and WP != RP):
+            continue
+        # no parent cycles between the two
+        if WP == R and RP == W:
+            continue
+        n_cfg += 1
+        env = {}
+        for name, role in sym.items():
+            if role:
+                env[name] = {'W': W, 'R': R, 'WP': WP, 'RP': RP}[role]
+        got = None
+        for test, key in branches:
+            nev += 1
+            if test is None:
+                val = True
+            else:
+                try:
+                    val = Evaluator(env).ev(test)
+                except AnalysisError as e:
+                    raise AnalysisError(f"gen_connections: test outside the abstract domain: {norm(test)}")
+            if val:
+                got = 'raise' if key == 'raise' else ('drop' if key == 'drop' else env.get(key, '?'))
+                break
+        want = _ref_host(W, R, WP, RP)
+        if got != want and mism is None:
+            mism = (W, R, WP, RP, got, want)
+    cons = ' / '.join(f"{norm(t) if t is not None else 'else'} -> {k}" for t, k in branches)
+    if mism:
+        W, R, WP, RP, got, want = mism
+        r.bad(m, 'gen_connections', cons, f"with writer host {W} (parent {WP}) and reader host {R} (parent {RP}) the edge is "
+              f"attributed to {got}, the component that contains both ends' declarations is {want}: the connection is emitted "
+              f"in a module where one of the signals does not exist, or is dropped", chain.lineno)
+    else:
+        r.ok(m, 'gen_connections', cons, note=f"{n_cfg} host configurations")
+    # each reader visited once: `if v not in visited: visited.add(v)` dominates the chain
+    g = [x for x in guards_of(chain) if x.kind == 'if' and x.polarity is True and norm(x.test) == f"{v} not in visited"]
+    vadd = [n for n in ast.walk(fn) if isinstance(n, ast.Call) and norm(n.func) == 'visited.add' and norm(n.args[0]) == v]
+    if g and vadd:
+        r.ok(m, 'gen_connections', f"{v} not in visited -> visited.add({v})", nontrivial=False)
+    else:
+        r.bad(m, 'gen_connections', 'visited guard', "an edge of the net is recorded once per traversal only if its reader end "
+              "is marked visited before it is expanded", chain.lineno)
+
+    # ---- StructuralRTLIRGenL1Pass: order and orientation
+    gm = repo.mod(SGEN1)
+    gf = gm.get_func('StructuralRTLIRGenL1Pass._gen_metadata')
+    ex, outs = sym_run(gf, rename=True)
+    conn_calls = []
+    for o in outs:
+        for cl, cs in o.calls:
+            if isinstance(cl, ast.Call) and isinstance(cl.func, ast.Attribute) and cl.func.attr == 'set_metadata' \
+                    and len(cl.args) == 2 and norm(cl.args[0]).endswith('.connections'):
+                conn_calls.append((o, cl.args[1]))
+    if not conn_calls:
+        raise AnalysisError("_gen_metadata: connections metadata not found")
+    for o, val in conn_calls[:1]:
+        ok = isinstance(val, ast.ListComp) and len(val.generators) == 1
+        msg = "connections must be generated in get_connect_order() order as (writer expr, reader expr) pairs"
+        if ok:
+            g = val.generators[0]
+            x = norm(g.target)
+            elt = val.elt
+            ok = isinstance(elt, ast.Tuple) and len(elt.elts) == 2 and \
+                [norm(e.args[1]) if isinstance(e, ast.Call) and len(e.args) == 2 else None for e in elt.elts] == [f"{x}[0]", f"{x}[1]"] \
+                and all(isinstance(e, ast.Call) and norm(e.func) == 'gen_signal_expr' for e in elt.elts)
+            it = norm(g.iter)
+            ok = ok and 'get_connect_order()' in it and 'sorted' not in it and 'set(' not in it and 'reversed' not in it
+        cons = f"connections = {norm(val)[:140]}"
+        if ok:
+            r.ok(gm, 'StructuralRTLIRGenL1Pass._gen_metadata', cons[:200])
+        else:
+            r.bad(gm, 'StructuralRTLIRGenL1Pass._gen_metadata', cons[:200], msg, gf.lineno)
+    # orientation fix-up: a pair not in the host's edge set is flipped (x[1], x[0]) and must then be present
+    flips = [n for n in ast.walk(gf) if isinstance(n, ast.Assign) and isinstance(n.value, ast.Tuple) and len(n.value.elts) == 2
+             and isinstance(n.value.elts[0], ast.Subscript) and isinstance(n.value.elts[1], ast.Subscript)]
+    okf = False
+    for fl in flips:
+        a, b = fl.value.elts
+        if norm(a.value) == norm(b.value) and norm(a.slice) == '1' and norm(b.slice) == '0':
+            gs = [g_ for g_ in guards_of(fl) if g_.kind == 'if' and g_.polarity is True and ' not in ' in norm(g_.test)]
+            if gs:
+                okf = True
+    if okf:
+        r.ok(gm, 'StructuralRTLIRGenL1Pass._gen_metadata', "pair not in host edge set -> flipped (x[1], x[0])")
+    else:
+        r.bad(gm, 'StructuralRTLIRGenL1Pass._gen_metadata', 'orientation fix-up', "connect() order pairs must be re-oriented "
+              "to (writer side, reader side) using the net traversal's edge set", gf.lineno)
+
+    # ---- translate_connections -> hook -> text
+    top = backend_class(repo, backend)
+    c, f = lk.find(top, 'translate_connections')
+    calls = [n for n in ast.walk(f) if isinstance(n, ast.Call) and isinstance(n.func, ast.Attribute) and n.func.attr == 'rtlir_tr_connection']
+    loops = [n for n in ast.walk(f) if isinstance(n, ast.For) and isinstance(n.target, ast.Tuple) and len(n.target.elts) == 2]
+    if len(calls) != 1 or not loops:
+        raise AnalysisError("translate_connections: shape not recognised")
+    wname, rname = [norm(e) for e in loops[0].target.elts]
+    args = calls[0].args
+    okt = len(args) == 2 and all(isinstance(a, ast.Call) and a.func.attr == 'rtlir_signal_expr_translation' for a in args) and \
+        norm(args[0].args[0]) == wname and norm(args[1].args[0]) == rname and \
+        [norm(a.args[2]) if len(a.args) > 2 else None for a in args] == ["'writer'", "'reader'"]
+    cons = f"rtlir_tr_connection({', '.join(norm(a)[:60] for a in args)})"
+    if okt:
+        r.ok(c.mod, fq(c, f), cons)
+    else:
+        r.bad(c.mod, fq(c, f), cons, "the hook must receive (translation of the writer with status 'writer', translation of the "
+              "reader with status 'reader')", calls[0].lineno)
+    hc, hf = lk.find(top, 'rtlir_tr_connection')
+    ps = [a.arg for a in hf.args.args][1:]
+    ex, outs = sym_run(hf)
+    for o in outs:
+        if o.kind != 'return' or o.value is None:
+            continue
+        for v in to_variants(o.value):
+            sk = v.skeleton()
+            hs = [h.text for h in hole_list(v.parts)]
+            cons = f"rtlir_tr_connection -> {sk} {hs}"
+            if sk != 'assign ⟨0⟩=⟨1⟩;':
+                r.bad(hc.mod, fq(hc, hf), cons, "a connection must be emitted as `assign <reader> = <writer>;`", o.node.lineno)
+                continue
+            if hs == [ps[1], ps[0]]:
+                r.ok(hc.mod, fq(hc, hf), cons)
+                continue
+            # yosys: the two expressions are taken from the deque in the order they were translated (writer first)
+            lhs, rhs = hole_list(v.parts)
+            l_pops = set(re.findall(r"__eff__\((\d+)", lhs.text))
+            r_pops = set(re.findall(r"__eff__\((\d+)", rhs.text))
+            if l_pops == {'1'} and r_pops == {'0'} and 'popleft' in lhs.text and 'popleft' in rhs.text:
+                r.ok(hc.mod, fq(hc, hf), "rtlir_tr_connection -> assign <2nd dequeued (reader)> = <1st dequeued (writer)>;")
+            else:
+                r.bad(hc.mod, fq(hc, hf), f"rtlir_tr_connection -> {sk} lhs from pops {sorted(l_pops)}, rhs from pops {sorted(r_pops)}",
+                      "the assign target must be the reader expression (translated and queued second), the source the "
+                      "writer expression (queued first)", o.node.lineno)
+    r.evaluations = nev
+    r.require_floor(7)
+    return r
+
+
+# ---------------------------------------------------------------------------
+_INST_RE = re.compile(r"\{(\w+)\}[ \t]+\{(\w+)\}[ \t]*\n[ \t]*\(")
+
+
+def _nested_funcs(fdef):
+    return [n for n in ast.walk(fdef) if isinstance(n, ast.FunctionDef) and n is not fdef]
+
+
+def _format_kw(expr, field):
+    """value bound to `field` in a `.format(...)` call found inside expr (after ** expansion by SymExec.sub)"""
+    for n in ast.walk(expr):
+        if isinstance(n, ast.Call) and isinstance(n.func, ast.Attribute) and n.func.attr == 'format':
+            for k in n.keywords:
+                if k.arg == field:
+                    return n, k.value
+    return None, None
+
+
+def _name_decision(expr, r, mod, where, lineno, site):
+    """judge `explicit name if set else unique name` for a module-name expression; returns (ok, unique_call, obj_text)"""
+    has = [n for n in ast.walk(expr) if isinstance(n, ast.Call) and isinstance(n.func, ast.Attribute)
+           and n.func.attr == 'has_metadata' and 'explicit_module_name' in norm(n)]
+    get = [n for n in ast.walk(expr) if isinstance(n, ast.Call) and isinstance(n.func, ast.Attribute)
+           and n.func.attr == 'get_metadata' and 'explicit_module_name' in norm(n)]
+    uniq = [n for n in ast.walk(expr) if isinstance(n, ast.Call) and isinstance(n.func, ast.Attribute)
+            and n.func.attr == 'rtlir_tr_component_unique_name']
+    isph = [n for n in ast.walk(expr) if isinstance(n, ast.Call) and norm(n.func) == 'isinstance' and 'Placeholder' in norm(n.args[1])]
+    return has, get, uniq, isph
+
+
+def rule_modname(repo, backend):
+    r = RuleResult('R-tr-modname', f"[{backend}] the name a module is defined under and the name it is instantiated with are "
+                                   f"chosen by the same rule (explicit_module_name if set, else the unique name of that "
+                                   f"component's own parameters) -- per element of a component array")
+    lk = linker(repo)
+    top = backend_class(repo, backend)
+    nev = 0
+    # ---- definition site
+    c, f = lk.find(top, 'rtlir_tr_component')
+    ex, outs = sym_run(f)
+    n_def = 0
+    for o in outs:
+        if o.kind != 'return' or o.value is None:
+            continue
+        call, val = _format_kw(o.value, 'module_name')
+        if call is None:
+            continue
+        tmpl_txt = ' '.join(x.value for x in ast.walk(call.func.value) if isinstance(x, ast.Constant) and isinstance(x.value, str))
+        if not re.search(r"\bmodule\s+\{module_name\}", tmpl_txt):
+            continue
+        n_def += 1
+        mism = None
+        for E, T_, M in itertools.product(('', 'X'), (False, True), ('', 'M')):
+            lv = {'structural.component_explicit_module_name': E, 'structural.component_is_top': T_,
+                  's._mangled_placeholder_top_module_name': M, 'structural.component_unique_name': 'U'}
+            ok, got = try_ev(val, lv)
+            nev += 1
+            if not ok:
+                raise AnalysisError(f"{fq(c, f)}: module name expression outside the abstract domain: {norm(val)[:100]}")
+            want = E or (M if (T_ and M) else 'U')
+            if got != want and mism is None:
+                mism = (E, T_, M, got, want)
+        cons = f"module {norm(val)[:200]}"
+        if mism:
+            E, T_, M, got, want = mism
+            r.bad(c.mod, fq(c, f), cons, f"with explicit_module_name={E!r}, is_top={T_}, placeholder name={M!r} the module is "
+                  f"defined as {got!r} but instantiated by its parent as {want!r} (the instantiation honours "
+                  f"explicit_module_name for every component): dangling module reference / wrong module bound", o.node.lineno)
+        else:
+            r.ok(c.mod, fq(c, f), cons)
+    if n_def == 0:
+        raise AnalysisError(f"{fq(c, f)}: module definition template not found")
+    # ---- instantiation site
+    c, f = lk.find(top, 'rtlir_tr_subcomp_decl')
+    cands = [f] + _nested_funcs(f)
+    inst = None
+    for g in cands:
+        for n in walk_no_nested(g):
+            if isinstance(n, ast.Constant) and isinstance(n.value, str):
+                m_ = _INST_RE.search(n.value)
+                if m_:
+                    inst = (g, m_.group(1), m_.group(2))
+    if inst is None:
+        raise AnalysisError(f"{fq(c, f)}: instantiation template `<module> <instance> (` not found")
+    g, fld_mod, fld_inst = inst
+    exo, outs_o = sym_run(f)
+    if g is f:
+        outs_g, exg = outs_o, exo
+    else:
+        exg, outs_g = sym_run(g, rename=False)
+    name_expr = None
+    for o in outs_g:
+        if o.kind != 'return' or o.value is None:
+            continue
+        call, val = _format_kw(o.value, fld_mod)
+        if call is not None:
+            name_expr = (o, val)
+            break
+    if name_expr is None:
+        raise AnalysisError(f"{fq(c, f)}: module-name field {fld_mod} of the instantiation template is not bound")
+    o_g, val = name_expr
+    gparams = [a.arg for a in g.args.args]
+    per_elem_params = set()
+    if g is not f:
+        # recursion over the array dimensions: parameters whose recursive argument involves the loop index
+        for n in ast.walk(g):
+            if isinstance(n, ast.Call) and isinstance(n.func, ast.Name) and n.func.id == g.name:
+                loops = [p for p in [enclosing(n, (ast.For, ast.ListComp, ast.GeneratorExp))] if p is not None]
+                lvars = set()
+                for lp in loops:
+                    if isinstance(lp, ast.For):
+                        lvars |= {x.id for x in ast.walk(lp.target) if isinstance(x, ast.Name)}
+                    else:
+                        for gen_ in lp.generators:
+                            lvars |= {x.id for x in ast.walk(gen_.target) if isinstance(x, ast.Name)}
+                for p, a in zip(gparams, n.args):
+                    if {x.id for x in ast.walk(a) if isinstance(x, ast.Name)} & lvars:
+                        per_elem_params.add(p)
+    hoisted = False
+    if isinstance(val, ast.Name) and val.id in gparams and g is not f:
+        # the name is a parameter of the recursive helper: take the argument given by the enclosing function
+        arg = None
+        for o in outs_o:
+            for n in [x for cl, cs in o.calls for x in ast.walk(cl)] + ([x for x in ast.walk(o.value)] if o.value is not None else []) + \
+                    [x for v_ in o.env.values() for x in ast.walk(v_)]:
+                if isinstance(n, ast.Call) and isinstance(n.func, ast.Name) and n.func.id == g.name:
+                    idx = gparams.index(val.id)
+                    if idx < len(n.args):
+                        arg = n.args[idx]
+            if arg is not None:
+                break
+        if arg is None:
+            raise AnalysisError(f"{fq(c, f)}: call of {g.name} not found")
+        val = arg
+        hoisted = True
+    has, get, uniq, isph = _name_decision(val, r, c.mod, fq(c, f), f.lineno, 'inst')
+    cons = f"instantiate {norm(val)[:220]}"
+    if not uniq:
+        memo = [n for n in ast.walk(val) if isinstance(n, ast.Subscript) and norm(n.value).startswith('s.')]
+        if memo:
+            r.bad(c.mod, fq(c, f), cons, f"the instantiated module name is looked up from `{norm(memo[0])[:80]}` instead of being "
+                  f"computed from this element's own RTLIR type: elements of an array (or instances of one class) with "
+                  f"different parameters are bound to the module of whichever was seen first", f.lineno)
+        else:
+            r.bad(c.mod, fq(c, f), cons, "the default module name of an instantiated sub-component is not "
+                  "rtlir_tr_component_unique_name(<its RTLIR type>)", f.lineno)
+    elif not has or not get:
+        r.bad(c.mod, fq(c, f), cons, "explicit_module_name of the sub-component is not consulted at the instantiation site "
+              "although the definition site uses it", f.lineno)
+    else:
+        mism = None
+        for H, in itertools.product((False, True)):
+            lv = {norm(has[0]): H, norm(get[0]): 'X', norm(uniq[0]): 'U'}
+            for ph in isph:
+                lv[norm(ph)] = False
+            ok, got = try_ev(val, lv)
+            nev += 1
+            if not ok:
+                raise AnalysisError(f"{fq(c, f)}: instantiated name outside the abstract domain: {norm(val)[:100]}")
+            want = 'X' if H else 'U'
+            if got != want and mism is None:
+                mism = (H, got, want)
+        if mism:
+            r.bad(c.mod, fq(c, f), cons, f"explicit_module_name {'set' if mism[0] else 'unset'}: instantiates {mism[1]!r}, the "
+                  f"definition is emitted as {mism[2]!r}", f.lineno)
+        else:
+            r.ok(c.mod, fq(c, f), f"instantiate: explicit name if set else unique name")
+        # per element
+        obj_txt = norm(has[0].func.value)
+        utxt = norm(uniq[0])
+        recursive = bool(per_elem_params) or any(isinstance(n, ast.Call) and isinstance(n.func, ast.Name) and n.func.id == g.name
+                                                 for n in ast.walk(g))
+        dep = any(re.search(rf"\b{re.escape(p)}\b", utxt) for p in per_elem_params) and not hoisted
+        dep_obj = any(re.search(rf"\b{re.escape(p)}\b", obj_txt) for p in per_elem_params) and not hoisted
+        cons2 = f"unique name from {norm(uniq[0].args[0])[:120] if uniq[0].args else '?'}"
+        if recursive and not (dep and dep_obj):
+            r.bad(c.mod, fq(c, f), cons2, "for an array of sub-components the module name is computed once (from element [0] / the "
+                  "array's element type) and reused for every element; RTLIR arrays only require equal interfaces, so elements "
+                  "constructed with different parameters are all bound to element 0's module", f.lineno)
+        else:
+            r.ok(c.mod, fq(c, f), cons2 + (" (per element)" if recursive else ""))
+    # ---- parameters that enter the unique name: defaults aligned with the tail of the argument list
+    tm = repo.mod(RTYPE)
+    pf = tm.get_func('Component._gen_parameters')
+    subs = [n for n in ast.walk(pf) if isinstance(n, ast.Subscript) and isinstance(n.value, ast.Name) and n.value.id == 'defaults'
+            and isinstance(n.ctx, ast.Load)]
+    if not subs:
+        raise AnalysisError("Component._gen_parameters: use of the defaults tuple not found")
+    for sb in subs:
+        idx_e = sb.slice
+        # resolve helper names by their reaching definitions
+        mapping = {}
+        for nm in {x.id for x in ast.walk(idx_e) if isinstance(x, ast.Name)}:
+            rv = reaching_value(nm, sb)
+            if rv is not None and nm not in ('arg_names', 'defaults'):
+                mapping[nm] = rv
+        from .astutil import subst
+        e2 = subst(idx_e, mapping)
+        loop = enclosing(sb, (ast.For,))
+        ivar = None
+        if loop is not None and isinstance(loop.target, ast.Tuple) and norm(loop.iter).startswith('enumerate('):
+            ivar = norm(loop.target.elts[0])
+        elif loop is not None and isinstance(loop.target, ast.Name):
+            ivar = loop.target.id
+        if ivar is None:
+            raise AnalysisError("Component._gen_parameters: loop index not recognised")
+        mism = None
+        for N in range(1, 5):
+            for D in range(0, N + 1):
+                for i in range(N - D, N):
+                    lv = {'arg_names': [0] * N, 'defaults': tuple(range(D)), ivar: i}
+                    ok, j = try_ev(e2, lv)
+                    nev += 1
+                    if not ok:
+                        raise AnalysisError(f"Component._gen_parameters: index outside the abstract domain: {norm(e2)}")
+                    want = i - (N - D)
+                    jj = j if j >= 0 else D + j
+                    if (jj != want or not (-D <= j < D)) and mism is None:
+                        mism = (N, D, i, j, want)
+        cons = f"defaults[{norm(idx_e)}]"
+        if mism:
+            N, D, i, j, want = mism
+            r.bad(tm, 'Component._gen_parameters', cons, f"construct() with {N} parameters, {D} defaults: parameter #{i} takes "
+                  f"defaults[{j}] instead of defaults[{want}] -- the module name carries another parameter's default value, so "
+                  f"differently parameterised components alias / identical ones get different modules", sb.lineno)
+        else:
+            r.ok(tm, 'Component._gen_parameters', cons)
+    r.evaluations = nev
+    r.require_floor(3)
     return r
